@@ -4,6 +4,7 @@ package proxy
 
 import (
 	"fmt"
+	"strings"
 
 	"reservoir/zzverif/vnet"
 	"reservoir/zzverif/vrun"
@@ -51,6 +52,70 @@ func scenarioKeysE2E(c *vrun.Ctx) {
 			}
 			if cb.R != fmt.Sprintf("B%d", i) {
 				c.Violation("C02/e2e/wrong-resource-served/"+p.class, fmt.Sprintf("after %s was stored, a request for %s was answered with the body of %s (status %d, origin requests %d)", p.a, p.b, cb.R, rb.Status, len(reqs)), nil)
+			}
+		}
+		env.close()
+	}
+	// the host / scheme component, on both transports: every (first request, second request) pair of
+	// addressed origins; the second must be answered with the body of the origin IT names
+	type addr struct {
+		name    string
+		tunnel  string // CONNECT authority ("" = plain proxying)
+		host    string // Host header / authority of the absolute target
+		resHost string // which scripted origin that is (lower case, as the proxy dials it)
+	}
+	addrs := []addr{
+		{"plain a.test", "", "a.test", "a.test"},
+		{"plain A.TEST", "", "A.TEST", "a.test"},
+		{"plain b.test", "", "b.test", "b.test"},
+		{"plain a.test:8080", "", "a.test:8080", "a.test:8080"},
+		{"tunnel a.test", "a.test:443", "a.test", "a.test"},
+		{"tunnel a.test, inner Host b.test", "a.test:443", "b.test", "b.test"},
+		{"tunnel b.test", "b.test:443", "b.test", "b.test"},
+		{"tunnel a.test, inner Host A.test", "a.test:443", "A.test", "a.test"},
+	}
+	for _, be := range []string{"memory", "file"} {
+		env := newEnv(envOpts{Backend: be, WithCA: true, Server: true})
+		n := 0
+		send := func(a addr, uri string) *vnet.Resp {
+			if a.tunnel == "" {
+				raw := "GET http://" + a.host + uri + " HTTP/1.1\r\nHost: " + a.host + "\r\nUser-Agent: vf\r\nAccept-Encoding: identity\r\n\r\n"
+				return env.srv.Do(raw)
+			}
+			h, _, _ := strings.Cut(a.tunnel, ":")
+			t, cr := env.srv.OpenTunnel(a.tunnel, env.tlsConfig(h))
+			if t == nil {
+				return cr
+			}
+			defer t.Close()
+			return t.Do(rawOriginFormHost("GET", uri, nil, "", a.host))
+		}
+		for i, first := range addrs {
+			for j, second := range addrs {
+				if i == j {
+					continue
+				}
+				c.Case()
+				n++
+				uri := fmt.Sprintf("/h%d/p", n)
+				for _, h := range []string{"a.test", "b.test", "a.test:8080"} {
+					env.origin.PutHost(h, uri, &vnet.Res{Name: fmt.Sprintf("H%d-%s", n, h), Size: 30, Headers: vnet.H{{"Cache-Control", "max-age=600"}}})
+				}
+				r1 := send(first, uri)
+				before := len(env.origin.Log)
+				r2 := send(second, uri)
+				contacted := len(env.origin.Log) - before
+				c1, _ := vnet.Identify([]byte(r1.Body), env.origin.Candidates())
+				c2, why := vnet.Identify([]byte(r2.Body), env.origin.Candidates())
+				c.Outcome(fmt.Sprintf("%s:hosts:%s->%s:%d", be, first.name, second.name, contacted))
+				want := fmt.Sprintf("H%d-%s", n, second.resHost)
+				if r2.Status != 200 || c2.R != want {
+					c.Violation("C02/e2e/wrong-host-served/"+second.name+"/after/"+first.name, fmt.Sprintf("after %q fetched %s (got %s), %q was answered with status %d and the body of %q (%s); it names %s", first.name, uri, c1.R, second.name, r2.Status, c2.R, why, want), nil)
+				}
+				sameResource := first.resHost == second.resHost && (first.tunnel == "") == (second.tunnel == "")
+				if sameResource && contacted != 0 {
+					c.Violation("C02/e2e/same-resource-not-shared/host-case-or-tunnel-spelling", fmt.Sprintf("%q and %q name the same resource but the second request contacted the origin %d times", first.name, second.name, contacted), nil)
+				}
 			}
 		}
 		env.close()
